@@ -23,8 +23,8 @@ Definition ref_sk_pkg_validate_with_configuration : string := "return call Valid
 Definition ref_sk_pkg_validate_compiled_with_configuration : string := "return call ValidateCompiledWithConfiguration".
 Definition ref_sk_recover_as_error : string := "call recover; if r != nil { if isError {  } else { call Errorf } }".
 Definition ref_sk_close_event_chan : string := "if eventChan != nil { call close }".
-Definition ref_sk_dispatch_event : string := "if eventChan != nil {  }".
-Definition ref_sk_milestones : string := "call make; range *eventChan { switch { case e.ProfileParsingStart,e.InputDataParsingStart,e.InputDataNormalizationStart,e.RegoGenerationStart,e.RegoCompilationStart,e.OpaValidationStart,e.BuildReportStart:  | case e.ProfileParsingDone:  | case e.InputDataParsingDone:  | case e.InputDataNormalizationDone:  | case e.RegoGenerationDone:  | case e.RegoCompilationDone:  | case e.OpaValidationDone:  | case e.BuildReportDone:  } }; call close".
+Definition ref_sk_dispatch_event : string := "if eventChan != nil { send }".
+Definition ref_sk_milestones : string := "call make; range *eventChan { switch { case e.ProfileParsingStart,e.InputDataParsingStart,e.InputDataNormalizationStart,e.RegoGenerationStart,e.RegoCompilationStart,e.OpaValidationStart,e.BuildReportStart:  | case e.ProfileParsingDone: send | case e.InputDataParsingDone: send | case e.InputDataNormalizationDone: send | case e.RegoGenerationDone: send | case e.RegoCompilationDone: send | case e.OpaValidationDone: send | case e.BuildReportDone: send } }; call close".
 Definition ref_sk_index : string := "call make; call make; if isMap {  }; range nodes { typeswitch { case string: if !ok { call make }; call append | case []any: range classes.([]any) { if !ok { call make }; call append } } }; call createLocationIndex; call make; range classIndex[""http://a.ml/vocabularies/document-source-maps#SourceMap""] { call handleSingleOrMultipleNodes; call addLexicalEntryFrom }; return".
 Definition ref_sk_add_lexical_entry : string := "if ok { call Location }".
 Definition ref_sk_create_location_index : string := "if len(sourceInformation) > 0 { call make; call handleSingleOrMultipleNodes; call addElementsOfLoc; return } else { return call make }".
